@@ -3,6 +3,7 @@ package c02
 
 import (
 	"fmt"
+	"sort"
 	"strings"
 	"time"
 
@@ -337,6 +338,105 @@ func Scopes(quick bool) []c01.Scope {
 		return w
 	})
 
+	// S-multipeer: rules whose peer list has two or three entries (a rule matches when any of its peers does - the first, a
+	// middle one or the last), in ANPs and in the BANP
+	add("S-multipeer", fw.Full, func(c *fw.Ctx) *wm.World {
+		p1 := c.Choose(len(Peers), "first peer")
+		p2 := c.Choose(len(Peers), "second peer")
+		p3 := c.Choose(3, "third peer: none | repeat of the first | namespaces team=b")
+		act := fw.Pick(c, Actions, "action")
+		pt := fw.Pick(c, []*[]wm.APort{nil, PortAlpha[2], PortAlpha[4], PortAlpha[5]}, "ports")
+		where := c.Choose(3, "the rule sits in: an ANP (followed by deny-all at a lower precedence) | an ANP alone | the BANP")
+		subj := fw.Pick(c, Subjects[:3], "subject")
+		np := fw.Pick(c, NPs[:3], "NetworkPolicy")
+		if quick {
+			c.Stride(2)
+		}
+		peers := []wm.APeer{Peers[p1], Peers[p2]}
+		switch p3 {
+		case 1:
+			peers = append(peers, Peers[p1])
+		case 2:
+			peers = append(peers, wm.APeer{Namespaces: teamB})
+		}
+		rl := wm.ARule{Action: act, Peers: peers, Ports: pt}
+		denyAll := wm.ARule{Action: "Deny", Peers: []wm.APeer{{Namespaces: all}}}
+		w := Base()
+		switch where {
+		case 0:
+			w.ANPs = []wm.ANP{{Name: "multi", Prio: 5, Subject: subj, Ingress: []wm.ARule{rl}, Egress: []wm.ARule{rl}},
+				{Name: "deny", Prio: 9, Subject: wm.APeer{Namespaces: all}, Ingress: []wm.ARule{denyAll}, Egress: []wm.ARule{denyAll}}}
+		case 1:
+			w.ANPs = []wm.ANP{{Name: "multi", Prio: 5, Subject: subj, Ingress: []wm.ARule{rl}, Egress: []wm.ARule{rl}}}
+		default:
+			if act == "Pass" {
+				c.Skip() // the BANP has no Pass action
+			}
+			w.BANP = &wm.ANP{Name: "default", Subject: subj, Ingress: []wm.ARule{rl, denyAll}, Egress: []wm.ARule{rl}}
+		}
+		w.NPs = np
+		return w
+	})
+
+	// S-pieces: what one direction allows is assembled from pieces that only together spell every port of every protocol
+	// (one ANP per protocol; two ANPs; an ANP and the NetworkPolicy layer; one rule listing three full ranges), while the
+	// other direction is restricted: the answer is the restriction, not the pieces
+	fullOf := func(protos ...string) *[]wm.APort {
+		var ps []wm.APort
+		for _, p := range protos {
+			ps = append(ps, wm.APort{Kind: "range", Proto: p, Num: 1, End: 65535})
+		}
+		return &ps
+	}
+	add("S-pieces", fw.Full, func(c *fw.Ctx) *wm.World {
+		layout := c.Choose(5, "pieces: three ANPs | two ANPs | ANP (TCP, UDP) + NetworkPolicy (SCTP) | one rule with three ranges | two ANPs leaving SCTP 1-65534")
+		dir := c.Choose(3, "pieces apply to: egress | ingress | both")
+		order := fw.Pick(c, perms3, "document order of the ANPs")
+		other := c.Choose(4, "other side: ns1 accepts TCP 80-85 | ns1 accepts nothing | ungoverned | ns1 accepts http and all UDP from everyone")
+		b := fw.Pick(c, BANPs[:3], "BANP")
+		mk := func(name string, prio int, pt *[]wm.APort) wm.ANP {
+			rl := wm.ARule{Action: "Allow", Peers: []wm.APeer{{Namespaces: all}}, Ports: pt}
+			a := wm.ANP{Name: name, Prio: prio, Subject: wm.APeer{Namespaces: all}}
+			if dir != 1 {
+				a.Egress = []wm.ARule{rl}
+			}
+			if dir != 0 {
+				a.Ingress = []wm.ARule{rl}
+			}
+			return a
+		}
+		w := Base()
+		var anps []wm.ANP
+		switch layout {
+		case 0:
+			anps = []wm.ANP{mk("tcp", 3, fullOf("TCP")), mk("udp", 7, fullOf("UDP")), mk("sctp", 11, fullOf("SCTP"))}
+		case 1:
+			anps = []wm.ANP{mk("tcp-udp", 3, fullOf("TCP", "UDP")), mk("sctp", 7, fullOf("SCTP"))}
+		case 2:
+			anps = []wm.ANP{mk("tcp-udp", 3, fullOf("TCP", "UDP"))}
+			w.NPs = append(w.NPs, wm.NP{NS: "ns2", Name: "sctp", PodSel: wm.Sel{}, Types: []string{"Egress"}, Egress: []wm.NPRule{{Ports: []wm.NPPort{{Proto: "SCTP"}}}}})
+		case 3:
+			anps = []wm.ANP{mk("all", 3, fullOf("SCTP", "TCP", "UDP"))}
+		default:
+			anps = []wm.ANP{mk("tcp-udp", 3, fullOf("TCP", "UDP")), mk("sctp", 7, ports(wm.APort{Kind: "range", Proto: "SCTP", Num: 1, End: 65534}))}
+		}
+		for _, i := range order {
+			if i < len(anps) {
+				w.ANPs = append(w.ANPs, anps[i])
+			}
+		}
+		switch other {
+		case 0:
+			w.NPs = append(w.NPs, NPs[2]...)
+		case 1:
+			w.NPs = append(w.NPs, wm.NP{NS: "ns1", Name: "n", PodSel: wm.Sel{}, Types: []string{"Ingress"}})
+		case 3:
+			w.NPs = append(w.NPs, wm.NP{NS: "ns1", Name: "n", PodSel: wm.Sel{}, Types: []string{"Ingress"}, Ingress: []wm.NPRule{{Ports: []wm.NPPort{{HasPort: true, Name: "http"}, {Proto: "UDP"}}}}})
+		}
+		w.BANP = b
+		return w
+	})
+
 	if !quick {
 		// rich seeds, all <=2-deviation variants over the large alphabets
 		for s := 0; s < 2; s++ {
@@ -358,6 +458,20 @@ func Scopes(quick bool) []c01.Scope {
 			})
 		}
 	}
+	// the small scopes run first: should a loaded machine ever make the quick tier meet its deadline, the cut falls on the
+	// strided products (whose full versions belong to the thorough tier) and not on a scope that is only complete as a whole
+	rank := map[string]int{"S-stack": 0, "S-multipeer": 1, "S-pieces": 2, "S-many": 3, "S-single": 4, "S-dir": 5}
+	sort.SliceStable(scopes, func(i, j int) bool {
+		ri, oki := rank[scopes[i].Name]
+		rj, okj := rank[scopes[j].Name]
+		if !oki {
+			ri = 9
+		}
+		if !okj {
+			rj = 9
+		}
+		return ri < rj
+	})
 	return scopes
 }
 
